@@ -1,4 +1,6 @@
 import ZnVerif.Properties.C03
+import ZnVerif.Properties.C03Stmt
+import ZnVerif.Properties.C03StmtExample
 open ZnVerif.Properties.C03
 #print axioms returned_tree_complete
 #print axioms production_complete
@@ -12,3 +14,20 @@ open ZnVerif.Properties.C03
 #print axioms second_comma_not_swallowed
 #print axioms parse_tokens_roundtrip_partial
 #print axioms no_chain_of_comparisons_witness
+-- statements, blocks, declarations, programs (Properties/C03Stmt.lean)
+#print axioms parse_expression_roundtrip_layout
+#print axioms parse_simple_statement_roundtrip
+#print axioms parse_statement_roundtrip
+#print axioms parse_block_roundtrip
+#print axioms parse_body_roundtrip
+#print axioms parse_statements_roundtrip
+#print axioms rendering_unambiguous
+#print axioms comments_are_invisible
+#print axioms parse_statements_roundtrip_comments
+#print axioms parseTokens_is_laidOut
+#print axioms exProgram_rendered
+#print axioms exTokens_inOrder
+#print axioms Example2.rendered
+#print axioms Example2.inOrder
+#print axioms Example2.evaluated
+#print axioms Example2.parsed
